@@ -1,5 +1,7 @@
 From Flurry Require Import Model.Types.
-From Coq Require Import List String Bool.
+From Coq Require Import List String Bool NArith.
+Import ListNotations.
+Open Scope string_scope.
 
 Lemma all_results_tied_true : all_results_tied = true.
 Proof. vm_compute. reflexivity. Qed.
@@ -27,3 +29,12 @@ Proof.
   unfold inserting_require_send_sync in H. rewrite forallb_forall in H. apply H.
   unfold inserting_rows. apply filter_In. split; [exact Hb|]. rewrite Hp, Hi. reflexivity.
 Qed.
+
+Lemma split_pair_rejected :
+  row_tied {| g_file := ""; g_ty := "HashMap"; g_trait := ""; g_name := "get_key_value"; g_line := 0%N;
+              g_self := "m"; g_guards := ["g"]; g_ret_lts := ["m"; "g"]; g_outlives := [("g", "m")];
+              g_ret := ""; g_borrow := true; g_static := false |} = false /\
+  row_tied {| g_file := ""; g_ty := "HashMap"; g_trait := ""; g_name := "get_key"; g_line := 0%N;
+              g_self := "m"; g_guards := ["g"]; g_ret_lts := ["m"]; g_outlives := [("g", "m")];
+              g_ret := ""; g_borrow := true; g_static := false |} = true.
+Proof. vm_compute. split; reflexivity. Qed.
